@@ -253,6 +253,7 @@ func genMsgs(out string) {
 	var dnames []string
 	var idThms []string
 	var idLists []string
+	var commonPairs []string // (id, Lean name of the definition) for the dialect "common"
 	for _, e := range ents {
 		if !e.IsDir() {
 			continue
@@ -275,6 +276,9 @@ func genMsgs(out string) {
 				ch = append(ch, lstr(c))
 			}
 			ms = append(ms, fmt.Sprintf("  { goName := %s, id := %d, defPkg := %s, chain := [%s] }", lstr(gn), m.id, lstr(m.pkg), strings.Join(ch, ", ")))
+			if d.name == "common" {
+				commonPairs = append(commonPairs, fmt.Sprintf("(%d, m_%s_%s)", m.id, m.pkg, m.goName))
+			}
 			txt.WriteString(fmt.Sprintf("%s %d %s %s\n", d.name, m.id, gn, m.body()))
 			dtxt.WriteString(fmt.Sprintf("defpkg %s %d %s.%s\n", d.name, m.id, m.pkg, gn))
 		}
@@ -357,6 +361,7 @@ func genMsgs(out string) {
 		lem = append(lem, fmt.Sprintf("layout_%d", i))
 	}
 	b.WriteString("theorem all_layout : allMsgs.all (fun m => Mav.layoutAgrees m.2.2) = true := by\n  simp only [allMsgs, List.all_append, " + strings.Join(lem, ", ") + ", Bool.and_self]\n\n")
+	b.WriteString("/-- the dialect `common`: message id ↦ definition (through the alias chains) -/\ndef commonById : List (Nat × Mav.Msg.GoStruct) := [\n  " + strings.Join(commonPairs, ",\n  ") + "]\n\n")
 	b.WriteString(fmt.Sprintf("def nMsgs : Nat := %d\nend Mav.Gen\n", len(keys)))
 	write(out, "MsgsAll.lean", b.String())
 }
